@@ -208,7 +208,8 @@ def run(ctx: Ctx):
         "command line flags (category subsets + report/review/short-report/disable, unknown flags, shortcuts --fix/--review) x INLINE_SNAPSHOT_DEFAULT_FLAGS x pyproject "
         "default-flags / default-flags-tui / skip-snapshot-updates-for-now x terminal or not x review answers x -n 0 / -n 2 x CI variables (+PYCHARM_HOSTED); observed: usage error, "
         "applied categories per site, unused external removed, SHA-256 of every project file before/after; compared with Model/Flags.v in Coq and with the statement "
-        "(only approved categories are written; nothing at all without approval). non-trivial = at least two sources of flags or review mode")
+        "(only approved categories are written; nothing at all without approval). Plus tests marked xfail on the function / a parameter set / the class / the module (pytestmark), "
+        "with fix / all categories / no flags: the file stays byte-identical. non-trivial = at least two sources of flags or review mode")
     proof_step(ctx)
     source_constants(ctx)
     n = 160 if not ctx.thorough else 2500
@@ -220,6 +221,8 @@ def run(ctx: Ctx):
                   {"env_var": ["create", "fix"], "xdist": 2}, {"cli": ["create", "fix", "trim", "update"]}, {"cli": ["short-report", "fix"]}, {},
                   {"cli": ["fix"], "ci": "GITHUB_ACTIONS"}, {"tty": True}, {"cli": ["trim", "report"]}):
         confs.append({**base, **extra})
+    from .. import xfailfam
+    xfailfam.check(ctx, "C04")
     outs = tmap(run_config, confs)
     terms, idx = [], []
     for i, (c, o) in enumerate(zip(confs, outs)):
@@ -271,6 +274,9 @@ def classify(c, o):
 
 
 def replay(ctx: Ctx, data):
+    if data["case"].get("kind") == "xfail":
+        from .. import xfailfam
+        return xfailfam.replay(data["case"], "C04")
     c = data["case"]["conf"]
     o = run_config(c)
     print(o["tail"][-800:], o["applied"], o["removed"], o["changed"])
